@@ -546,6 +546,7 @@ func runC06(c *Ctx) {
 	c.assume("encoding/json decodes the same JSON value to the same struct regardless of whitespace, member order and string escapes")
 	c.assume("cyclonedx-go writes bomFormat \"CycloneDX\" and the specVersion string of the SpecVersion constant it is asked to encode; tools-golang writes the SPDXVersion field verbatim")
 	deferredRewind(c)
+	snifferStreamUses(c)
 
 	const R = "declaration-agreement"
 	c.rule(R, "for every combination of bomFormat / specVersion / spdxVersion values (case literals plus near misses) the JSON branch returns either the empty format with a non-nil error, or a format constant that contains the declaration's family token and `+json` and ends in `;version=<declared version>`, with a nil error")
@@ -679,6 +680,43 @@ func deferredRewind(c *Ctx) {
 			if ok0 && ok1 && a0.isInt() && a0.int() == 0 && a1.isInt() && a1.int() == 0 {
 				okSeek = true
 				deferPos = ds.Pos()
+			}
+		}
+		// `defer rewind(f)`: a named function of the module handed the stream
+		if !okSeek {
+			if g, _ := typeutil.Callee(d.pkg.TypesInfo, ds.Call).(*types.Func); g != nil && g.Pkg() != nil && strings.HasPrefix(g.Pkg().Path(), modPath+"/") {
+				if gfd, gpk := c.P.FuncDecl(objName(g)); gfd != nil && gfd.Body != nil {
+					for ai, a := range ds.Call.Args {
+						if objOf(d.pkg, a) != param {
+							continue
+						}
+						var gp types.Object
+						k := 0
+						for _, fl := range gfd.Type.Params.List {
+							for _, nm := range fl.Names {
+								if k == ai {
+									gp = gpk.TypesInfo.Defs[nm]
+								}
+								k++
+							}
+						}
+						for _, cs := range callsIn(gpk, gfd.Body) {
+							if cs.callee.Name() != "Seek" || len(cs.call.Args) != 2 {
+								continue
+							}
+							sel, ok := cs.call.Fun.(*ast.SelectorExpr)
+							if !ok || gp == nil || objOf(gpk, sel.X) != gp {
+								continue
+							}
+							a0, ok0 := constOf(gpk, cs.call.Args[0])
+							a1, ok1 := constOf(gpk, cs.call.Args[1])
+							if ok0 && ok1 && a0.isInt() && a0.int() == 0 && a1.isInt() && a1.int() == 0 {
+								okSeek = true
+								deferPos = ds.Pos()
+							}
+						}
+					}
+				}
 			}
 		}
 		break // only a defer that is unconditional and first counts
